@@ -1,5 +1,6 @@
 # C11: selector functions are sound with respect to element matching.
 import json
+import re
 import os
 import random
 
@@ -90,6 +91,36 @@ def run(ctx):
     # the @extend counterpart of selector-extend lives in its own style sheet (an @extend rewrites every rule of a sheet)
     ejobs = [{"id": i, "src": "%s { n: ext; }\n%s { @extend .x; }\n" % (a["text"], b["text"])} for i, (a, b) in enumerate(meta)]
     eres = C.run_cases(ejobs, PID + "-ext")
+    # selector-append(A, B) against the nested rule 'A { &B { } }': separate sheets, because either may legitimately be an error
+    # (B starting with a combinator or '*'); both must then fail, otherwise both must print the same selector
+    apairs = [(a, b) for pi, (a, b) in enumerate(pairs) if pi not in lite]
+    afun = C.run_cases([{"id": i, "src": "x { app: selector-append(\"%s\", \"%s\"); }\n" % (a["text"], b["text"])} for i, (a, b) in enumerate(apairs)], PID + "-appf")
+    arule = C.run_cases([{"id": i, "src": "%s { &%s { m: app; } }\n" % (a["text"], b["text"])} for i, (a, b) in enumerate(apairs)], PID + "-appr")
+
+    def seltext(t):
+        return re.sub(r"\s*,\s*", ",", re.sub(r"\s+", " ", t.strip()))
+    nappend = 0
+    for (a, b), xf, xr in zip(apairs, afun, arule):
+        of, orr = xf.get("outcome"), xr.get("outcome")
+        src = "x { app: selector-append(\"%s\", \"%s\"); }\n%s { &%s { m: app; } }\n" % (a["text"], b["text"], a["text"], b["text"])
+        if of not in ("css", "error"):
+            ctx.violation("selector-append crashed on (%s | %s): %s" % (a["text"], b["text"], xf.get("panic") or of), {"src": src, "outcome": of})
+            continue
+        if orr not in ("css", "error"):
+            continue                      # a crash of the nested rule itself is C01/C04's business
+        nappend += 1
+        if of != orr:
+            ctx.violation("selector-append and the nested rule '&B' disagree on (%s | %s): function %s, rule %s" % (a["text"], b["text"], of, orr),
+                          {"src": src, "function": "append", "a": a["text"], "b": b["text"]})
+            continue
+        if of == "css":
+            fsel = decls(xf).get("app", "")
+            rsel = [sel for _, sel, ds in cssread.flatten(cssread.parse(xr["css"])) if ds and ("m", "app") in ds]
+            if rsel and seltext(fsel) != seltext(rsel[0]):
+                ctx.violation("selector-append(%s, %s) = %s but the nested rule gives %s" % (a["text"], b["text"], fsel, rsel[0]),
+                              {"src": src, "function": "append", "a": a["text"], "b": b["text"], "observed": {"function": fsel, "rule": rsel[0]}})
+    ctx.extra["append_pairs_compared"] = nappend
+    ctx.validated += nappend
     tpath = os.path.join(C.WORK, "trace-C11-%d.ndjson" % os.getpid())
     events = []
 
